@@ -1371,8 +1371,10 @@ def check_late(case):
             return dict(nt=False, cls=["skipped:impulse-dated-in-the-start-step"], ratio=0.0)
         lte = np.asarray(ig.rk4_step(ys[k], h, mu)) - tb.propagate_uv(ys[k], h, mu)
         ref = [tb.propagate_uv(ys[k], (s_us - k * h_us) / 1e6, mu)]
-        ptol = 20 * float(np.linalg.norm(lte[:3])) + 1e-9 * rn
-        vtol = 20 * float(np.linalg.norm(lte[3:])) + 1e-9 * vn
+        # (+ 1e-7 of the state for the 8-point interpolation of a smooth arc, whose error does not scale like the
+        # integrator's on eccentric orbits)
+        ptol = 20 * float(np.linalg.norm(lte[:3])) + 1e-7 * rn
+        vtol = 20 * float(np.linalg.norm(lte[3:])) + 1e-7 * vn
         m = 1
     worst = 0.0
     for j in range(m):
